@@ -3,6 +3,7 @@ import Artela.Props.InterpSafe
 import Artela.Props.InterpHalts
 import Artela.Props.InterpAbort
 import Artela.Props.InterpJournal
+import Artela.Props.InterpWork
 /-
   The hypotheses of the interpreter-loop theorems, discharged for every instruction table extracted from the running
   code (13 forks and 9 extra-EIP variants), and the theorems restated for those tables.
@@ -16,7 +17,7 @@ def rowsOK (rows : List Gen.OpRow) : Bool :=
   rows.all fun r =>
     match decode r.exec r.op with
     | none => true
-    | some i => rowSafe (toRow r) i && paysRow (toRow r) i && rowLimit (toRow r) i
+    | some i => rowSafe (toRow r) i && paysRow (toRow r) i && rowLimit (toRow r) i && rowWork (toRow r) i
 
 /-- byte 0 is STOP -/
 def stopOK (rows : List Gen.OpRow) : Bool :=
@@ -36,9 +37,9 @@ theorem tableOf_some {rows : List Gen.OpRow} {op : Nat} {row : Row} (h : tableOf
     exact ⟨r, hm, hp, h⟩
 
 theorem rowsOK_sound {rows : List Gen.OpRow} (h : rowsOK rows = true) {env : IEnv World} (he : env.table = tableOf rows) :
-    TableSafe env ∧ TablePays env ∧ TableLimit env := by
+    TableSafe env ∧ TablePays env ∧ TableLimit env ∧ TableWork env := by
   have key : ∀ op row i, env.table op = some row → decode row.exec op = some i →
-      rowSafe row i = true ∧ paysRow row i = true ∧ rowLimit row i = true := by
+      rowSafe row i = true ∧ paysRow row i = true ∧ rowLimit row i = true ∧ rowWork row i = true := by
     intro op row i hr hd
     rw [he] at hr
     obtain ⟨r, hm, hop, htr⟩ := tableOf_some hr
@@ -48,9 +49,9 @@ theorem rowsOK_sound {rows : List Gen.OpRow} (h : rowsOK rows = true) {env : IEn
     rw [hd'] at this
     simp only [Bool.and_eq_true] at this
     rw [htr] at this
-    exact ⟨this.1.1, this.1.2, this.2⟩
+    exact ⟨this.1.1.1, this.1.1.2, this.1.2, this.2⟩
   exact ⟨fun op row i hr hd => (key op row i hr hd).1, fun op row i hr hd => (key op row i hr hd).2.1,
-         fun op row i hr hd => (key op row i hr hd).2.2⟩
+         fun op row i hr hd => (key op row i hr hd).2.2.1, fun op row i hr hd => (key op row i hr hd).2.2.2⟩
 
 theorem stopOK_sound {rows : List Gen.OpRow} (h : stopOK rows = true) {env : IEnv World} (he : env.table = tableOf rows) :
     StopAtEnd env := by
@@ -179,7 +180,16 @@ theorem interp_work_bounded_by_gas (rows : List Gen.OpRow) (hr : rows ∈ extrac
 /-- the stack never exceeds 1024 items after an instruction -/
 theorem interp_stack_limit (rows : List Gen.OpRow) (hr : rows ∈ extractedTables) (env : IEnv World)
     (he : env.table = tableOf rows) {s s' : IState World} (h : step env s = .next s') : s'.stack.length ≤ 1024 :=
-  step_stack_limit (rowsOK_sound (extracted_ok rows hr).1 he).2.2 h
+  step_stack_limit (rowsOK_sound (extracted_ok rows hr).1 he).2.2.1 h
+
+/-- **C20 (interpreter loop), work**: on every table of the running code, a frame that starts from empty memory with `g` gas
+    performs — over any number `n` of iterations — at most `2·g + n` word operations (memory allocated and zeroed, bytes copied,
+    EXP multiplications, all in 32-byte words); with `interp_work_bounded_by_gas` (`n ≤ g + 1` iterations) at most `3·g + 1`. -/
+theorem interp_work_per_gas (rows : List Gen.OpRow) (hr : rows ∈ extractedTables) (env : IEnv World)
+    (he : env.table = tableOf rows) (hE : EnvOK env) (n : Nat) (s : IState World) (hI : MemInv s) (hinv : Inv s) :
+    runWork env n s ≤ 2 * s.gas + n :=
+  let h := rowsOK_sound (extracted_ok rows hr).1 he
+  run_work h.1 h.2.1 h.2.2.2 hE n s hI hinv
 
 /-- **C17 (interpreter loop)**: with the abort flag set, a frame stops within `|code| - pc + 1` instructions -/
 theorem interp_cancel_stops (rows : List Gen.OpRow) (hr : rows ∈ extractedTables) (env : IEnv World)
@@ -198,6 +208,7 @@ def demoState : IState Unit :=
 
 example : EnvOK demoEnv := ⟨by decide, by decide, fun _ _ _ => ⟨Nat.le_refl _, by simp [demoEnv, maxAlloc], fun n => Nat.le_refl n⟩⟩
 example : Inv demoState := by simp [Inv, demoState, memCeil]
+example : MemInv demoState := by simp [MemInv, demoState, memFee]
 /-- … and the model runs the demo program (3 + 2, stored and returned) to a normal halt with the expected data -/
 example : (match run demoEnv 20 demoState with | .halt h g => some (h, g) | _ => none) = some (.ret (beBytes 32 5), 76) := by
   decide +kernel
